@@ -316,7 +316,9 @@ def run(repo, chk):
 
     # ---------------- X3 ----------------------------------------------------------------------
     from . import c07, c08
-    c07.run(repo, Remap(chk, {'C07.K4': 'C10.X3', 'C07.K5': 'C10.X3'}))
+    # every operator rejects an operand of type `empty` (otherwise EmptyAccessor.get raises InternalCompilerError in the
+    # generator): the rows of the operator typing matrix with an empty operand (shared with C07.K2)
+    c07.run(repo, Remap(chk, {'C07.K4': 'C10.X3', 'C07.K5': 'C10.X3', 'C07.K2': lambda c: 'C10.X3' if 'empty' in c else None}))
     c08.run(repo, Remap(chk, {'C08.L1': 'C10.X3'}))
     n_assert = sum(1 for v in xf.own.values() for s in v if s.kind == 'assert')
     chk.sample({'assertion_sites_reachable_from_API': n_assert,
